@@ -30,8 +30,12 @@ class Check(PropertyCheck):
     level_note = ("'every replayed flow ends with a response or an error' is proved ABOUT THE MODEL under an explicit fairness "
                   "hypothesis (the history continues with loop/server operations until no terminal event is enabled: the "
                   "server answers, refuses or drops everything pending): a variant decreases on every loop/server "
-                  "operation, a terminal event is always enabled while work is left, hence every started replay has its "
-                  "fin. That the real ReplayHandler turns every server outcome into a response/error hook (timeouts, "
+                  "operation, a terminal event is always enabled while work is left, a completing continuation exists and "
+                  "is short, and at an idle end every started replay has its fin (the 'every fair continuation' theorems' "
+                  "hypothesis amounts to 'the end state is quiescent'; nothing is claimed about every fair run of the REAL "
+                  "addon). Hypotheses named _hnot / _hloop are tie conditions: unused by the proofs, they restrict the "
+                  "statement to the states / histories in which the driver runs the function the theorem is about. "
+                  "'Unreplayable' is read at the time of queueing. That the real ReplayHandler turns every server outcome into a response/error hook (timeouts, "
                   "half-open peers) is exercised by the winddown of every script and compared through the variant value "
                   "at every step, not proved. stop_restores_queued holds only for flows without an older backup (finding "
                   "F-C53a: Flow.backup() keeps an existing backup); the full statement is refuted by "
